@@ -134,7 +134,8 @@ class C18(Prop):
     rule = ('case = a DSL program: read_input / read_input_group (1-3 files), 1-4 bash jobs (names: none, short, equal, 240-260 characters, '
             'with characters safe_str rewrites) with optional declare_resource_group, 1-2 commands '
             'each built from text fragments and references (inputs, group members, own and earlier jobs\' resources, whole groups), '
-            'PythonJobs calling a function with resource arguments; single-member references of job-declared groups (bash and python) are '
+            'PythonJobs calling a function with resource arguments; PythonResult conversions (as_str / as_repr / as_json, often several of '
+            'one result) consumed by bash commands, python calls and write_output; single-member references of job-declared groups (bash and python) are '
             'frequent; add_extension, write_output; executed on the real classes, then ServiceBackend._async_run with a recording client; compared per '
             'job: interpolated commands, input_files, output_files, parents, input-group symlinks (sets sorted, tmpdirs canonicalised); '
             'non-trivial = at least one job consumes another job\'s resource; distinct by full case')
@@ -190,6 +191,15 @@ class C18(Prop):
     def _foreign_ref(self, rng, j, jobs, handles, inputs=True, whole=0.3):
         """a reference job j makes to something it does not own: an earlier job's resource (file, whole declared group, or —
         most often when there is a group — a SINGLE member of it) or an input"""
+        results = [(p, k) for p in range(j) for k in range(jobs[p].get('calls', 0))]
+        if results and rng.random() < 0.45:
+            # a converted PythonResult; the same result is often converted in several ways within one program
+            p, k = rng.choice(results)
+            done = jobs[p].setdefault('convs', {}).setdefault(k, set())
+            missing = [c for c in ('str', 'repr') if c not in done]
+            conv = rng.choice(missing) if done and missing and rng.random() < 0.7 else rng.choice(['str', 'repr', 'str', 'repr', 'json'])
+            done.add(conv)
+            return ['c', p, k, conv]
         if inputs and handles and rng.random() < 0.25:
             k = rng.randrange(len(handles))
             if handles[k][0] == 'group' and rng.random() < 0.6:
@@ -239,8 +249,8 @@ class C18(Prop):
         jobs = []             # per job: dict(attrs={name: 'file'|('group', idents)}, valid=set(names), ext=set())
         for j in range(njobs):
             name = self._job_name(rng, long_name)
-            info = {'attrs': {}, 'valid': set(), 'ext': set()}
-            if j > 0 and rng.random() < 0.2:
+            info = {'attrs': {}, 'valid': set(), 'ext': set(), 'calls': 0}
+            if (j > 0 and rng.random() < 0.2) or (j == 0 and rng.random() < 0.06):
                 # a PythonJob whose call gets resources of earlier jobs / inputs as arguments
                 prog.append({'op': 'pyjob', 'name': name})
                 jobs.append(info)
@@ -248,7 +258,8 @@ class C18(Prop):
                     args = []
                     for _ in range(rng.choice([1, 1, 2, 3])):
                         shape = rng.random()
-                        refs = [r for r in (self._foreign_ref(rng, j, jobs, handles, whole=0.6) for _ in range(rng.choice([1, 2, 3]))) if r]
+                        refs = [r for r in (self._foreign_ref(rng, j, jobs, handles, whole=0.6) for _ in range(rng.choice([1, 2, 3])))
+                                if r] if j > 0 else []
                         if shape < 0.1:
                             args.append(['v', rng.randint(0, 99)])
                         elif not refs:
@@ -260,6 +271,7 @@ class C18(Prop):
                         else:
                             args.append(['d', [[f'k{i}', r] for i, r in enumerate(refs)]])
                     prog.append({'op': 'pycall', 'j': j, 'args': args})
+                    info['calls'] += 1
                 continue
             prog.append({'op': 'job', 'name': name})
             jobs.append(info)
@@ -316,8 +328,12 @@ class C18(Prop):
                     info['ext'].add(a)
         for _ in range(rng.choice([0, 1, 1, 2])):
             r = rng.random()
+            results = [(p, k) for p in range(njobs) for k in range(jobs[p].get('calls', 0))]
             if r < 0.15 and handles:
                 ref = ['h', rng.randrange(len(handles))]
+            elif r < 0.45 and results:
+                p, k = rng.choice(results)
+                ref = ['c', p, k, rng.choice(['str', 'repr', 'json'])]
             else:
                 p = rng.randrange(njobs)
                 pool = sorted(jobs[p]['valid']) if rng.random() < 0.95 else self.ATTRS
@@ -349,6 +365,8 @@ class C18(Prop):
             return f'M{r[1]}.{hx(r[2])}'
         if r[0] == 'a':
             return f'A{r[1]}.{hx(r[2])}'
+        if r[0] == 'c':
+            return f'X{r[1]}.{r[2]}.{r[3][0]}'          # (result of call k of python job j).as_json/as_str/as_repr()
         return f'B{r[1]}.{hx(r[2])}.{hx(r[3])}'
 
     def model_lines(self, c):
@@ -393,6 +411,8 @@ class C18(Prop):
             return getattr(env['handles'][r[1]], r[2])
         if r[0] == 'a':
             return getattr(env['jobs'][r[1]], r[2])
+        if r[0] == 'c':
+            return getattr(env['results'][r[1]][r[2]], 'as_' + r[3])()
         return getattr(getattr(env['jobs'][r[1]], r[2]), r[3])
 
     def _run(self, c):
@@ -443,7 +463,7 @@ class C18(Prop):
         async def no_validate(uri, rp=None):
             return None
         be.validate_file = no_validate
-        env = {'handles': [], 'jobs': []}
+        env = {'handles': [], 'jobs': [], 'results': {}}
         mentions = []       # (job index, command index, pieces with resolved resource objects)
         out_stmts = []
         pycalls = []        # (job index, call index, the argument objects as passed)
@@ -480,7 +500,7 @@ class C18(Prop):
                                     args.append(a[1])
                             mentions.append((s['j'], None, [('r', a) for a in flat]))
                             pycalls.append((s['j'], len(j._function_calls), args))
-                            j.call(verif_count_lines, *args)
+                            env['results'].setdefault(s['j'], []).append(j.call(verif_count_lines, *args))
                         elif op == 'rgroup':
                             env['jobs'][s['j']].declare_resource_group(**{s['gname']: {i: t for i, t in s['files']}})
                         elif op == 'cmd':
@@ -780,6 +800,8 @@ class C18(Prop):
                 return p[0] == 'm' and handles[p[1]] != 'group'
             if p[1] >= len(jobs):
                 return True
+            if p[0] == 'c':
+                return not jobs[p[1]]['python'] or p[2] >= jobs[p[1]]['calls'] or p[3] not in ('json', 'str', 'repr')
             if p[0] == 'b' and p[2] not in jobs[p[1]]['groups']:
                 return True
             jobs[p[1]]['attrs'].add(p[2])
@@ -791,7 +813,7 @@ class C18(Prop):
             elif op == 'igroup':
                 handles.append('group')
             elif op in ('job', 'pyjob'):
-                jobs.append({'groups': set(), 'attrs': set(), 'python': op == 'pyjob'})
+                jobs.append({'groups': set(), 'attrs': set(), 'python': op == 'pyjob', 'calls': 0})
             elif op == 'rgroup':
                 if s['j'] >= len(jobs) or jobs[s['j']]['python'] or s['gname'] in jobs[s['j']]['attrs']:
                     return True
@@ -803,6 +825,8 @@ class C18(Prop):
                 for p in (s['pieces'] if op == 'cmd' else [r for a in s['args'] for r in arg_refs(a)]):
                     if p[0] != 't' and bad_ref(p):
                         return True
+                if op == 'pycall':
+                    jobs[s['j']]['calls'] += 1
             elif op == 'ext':
                 if s['j'] >= len(jobs) or s['name'] in jobs[s['j']]['groups']:
                     return True
@@ -825,17 +849,26 @@ class C18(Prop):
         njobs = sum(1 for s in prog if s['op'] in ('job', 'pyjob'))
         tags = ['res=' + (line.split(' ')[1] if line.startswith('err') else 'ok'), f'jobs={njobs}']
         cross = 0
-        groups_whole, member_only = set(), set()
+        groups_whole, member_only, convs = set(), set(), {}
         for s in prog:
             if s['op'] in ('cmd', 'pycall'):
                 for p in (s['pieces'] if s['op'] == 'cmd' else [r for a in s['args'] for r in arg_refs(a)]):
+                    if p[0] == 'c':
+                        cross += 1
+                        convs.setdefault((p[1], p[2]), set()).add(p[3])
                     if p[0] in ('a', 'b') and p[1] != s['j']:
                         cross += 1
                         (member_only if p[0] == 'b' else groups_whole).add((p[1], p[2]))
+            if s['op'] == 'out' and s['ref'][0] == 'c':
+                convs.setdefault((s['ref'][1], s['ref'][2]), set()).add(s['ref'][3])
             if s['op'] in ('igroup', 'rgroup', 'ext', 'out', 'pycall'):
                 tags.append('has-' + s['op'])
         if member_only - groups_whole:
             tags.append('has-member-only-reference')
+        if convs:
+            tags.append('has-converted-result')
+        if any({'str', 'repr'} <= v for v in convs.values()):
+            tags.append('has-str-and-repr-of-one-result')
         for s in prog:
             if s['op'] == 'pycall':
                 for a in map(norm_arg, s['args']):
